@@ -73,11 +73,12 @@ structure LGraph where
 structure Cfg where
   onDemand : Bool := false
   skipBoundLabels : Bool := false
-  /-- NOT in the current code: the repair proposed in /verif/fixes/C03_closure_trace_mismatch.patch
-  (use the closure on top of ClosureTrace only if it is a closure of the free variable's function).
-  `false` models the code as it is; the flag exists so that the theorems show what the repair
-  restores and so that the check keeps working once the repair is applied. -/
-  closureCheck : Bool := false
+  /-- `true` (default) models the code as it is since /repo commit 7ab5f0c ("backtrace only uses the
+  top of the closure trace for free variables of that closure"): the FreeVarNode case uses the
+  closure on top of ClosureTrace only if it is a closure of the free variable's own function.
+  `false` is the code BEFORE that repair (findings F15, F15b, F16), kept so that the old
+  counterexample remains a theorem about the unrepaired variant. -/
+  closureCheck : Bool := true
   deriving Repr, Inhabited
 
 def LGraph.node (G : LGraph) (i : Nat) : Node := G.nodes.getD i default
